@@ -31,6 +31,17 @@ structure MvccCfg where
   skipOp : CmpOp
   /-- `hasConflict` intent fast path: `ts <op> txn.readTs ⇒ conflict` (source: `>`). -/
   intentOp : CmpOp
+  /-- `hasConflict` returns `false` right after the intent-table pass found nothing, without
+      scanning `committedTxns` (source as-is: no, the scan follows). -/
+  intentFinal : Bool
+  /-- `cleanupCommittedTransactions` deletes an intent entry of a pruned txn only when it still
+      points at that txn (`ts == txn.ts`); `false` = deletes it unconditionally. -/
+  intentDelGuard : Bool
+  /-- `TxnIterator.advance` records every returned item in the read set; `false` = only items
+      whose version is below the read timestamp. -/
+  scanTrackAll : Bool
+  /-- `oracle.initCommitState`: `committed <op> nextTxnTs ⇒ nextTxnTs := committed + 1` (source: `>=`). -/
+  seedOp : CmpOp
   /-- `newCommitTs` appends `(ts, conflictKeys)` to `committedTxns`. -/
   recordsCommit : Bool
   /-- `cleanupCommittedTransactions`: `txn.ts <op> maxReadTs ⇒ drop` (source: `<=`). -/
@@ -52,6 +63,7 @@ structure MvccCfg where
 
 def MvccCfg.good : MvccCfg :=
   { readTsOff := 1, trackGet := true, checksConflict := true, skipOp := .le, intentOp := .gt,
+    intentFinal := false, intentDelGuard := true, scanTrackAll := true, seedOp := .ge,
     recordsCommit := true, pruneOp := .le, countOp := .ge, sizeOp := .ge, sendCountOp := .ge,
     sendSizeOp := .ge, wmTracksZero := true, wmHoldsAtDone := true }
 
@@ -59,13 +71,13 @@ def MvccCfg.good : MvccCfg :=
 def MvccCfg.asis : MvccCfg := { MvccCfg.good with wmTracksZero := false, wmHoldsAtDone := false }
 
 /-- what the snapshot / atomicity theorems need -/
-def MvccCfg.SnapGood (c : MvccCfg) : Prop := c.readTsOff = 1
+def MvccCfg.SnapGood (c : MvccCfg) : Prop := c.readTsOff = 1 ∧ c.seedOp = .ge
 instance MvccCfg.decSnapGood (c : MvccCfg) : Decidable c.SnapGood := by unfold MvccCfg.SnapGood; exact inferInstance
 
 /-- conflict detection without the watermark flags -/
 def MvccCfg.DetectGood (c : MvccCfg) : Prop :=
   c.readTsOff = 1 ∧ c.trackGet = true ∧ c.checksConflict = true ∧ c.skipOp = .le ∧
-  c.recordsCommit = true ∧ c.pruneOp = .le
+  c.recordsCommit = true ∧ c.pruneOp = .le ∧ c.intentFinal = false ∧ c.seedOp = .ge
 instance MvccCfg.decDetectGood (c : MvccCfg) : Decidable c.DetectGood := by unfold MvccCfg.DetectGood; exact inferInstance
 
 /-- everything C03's conflict / serializability theorems need -/
@@ -75,6 +87,10 @@ instance MvccCfg.decConfGood (c : MvccCfg) : Decidable c.ConfGood := by unfold M
 
 def MvccCfg.SizeGood (c : MvccCfg) : Prop :=
   c.countOp = .ge ∧ c.sizeOp = .ge ∧ c.sendCountOp = .ge ∧ c.sendSizeOp = .ge
+
+/-- commit versions keep increasing across a reopen -/
+def MvccCfg.SeedGood (c : MvccCfg) : Prop := c.seedOp = .ge
+instance MvccCfg.decSeedGood (c : MvccCfg) : Decidable c.SeedGood := by unfold MvccCfg.SeedGood; exact inferInstance
 instance MvccCfg.decSizeGood (c : MvccCfg) : Decidable c.SizeGood := by unfold MvccCfg.SizeGood; exact inferInstance
 
 -- ---------------------------------------------------------------- read watermark (atomic use)
@@ -200,7 +216,9 @@ inductive Out where
   | discarded
   | closed
   | notxn
+  | iofail
   | vers (l : List (Nat × Val))
+  | scanned (l : List (Key × Val))
   deriving DecidableEq, Repr
 
 inductive Op where
@@ -208,6 +226,9 @@ inductive Op where
   | get (id : Nat) (k : Key)
   | set (id : Nat) (k : Key) (v : Option Val)     -- `none` = Delete
   | commit (id : Nat)
+  | commitIO (id : Nat)                           -- commit whose request fails in the write pipeline (I/O error)
+  | scan (id : Nat)                               -- `NewIterator` forward over everything, every item read
+  | reopen                                        -- `Close` + `Open` of the same directory
   | discard (id : Nat)
   | close
   | versions (k : Key)
@@ -244,7 +265,8 @@ def hasConflict (c : MvccCfg) (s : St) (t : Txn) : Bool :=
   if t.reads = [] then false
   else
     t.reads.any (fun r => s.intent.any (fun p => p.1 = r && c.intentOp.nat p.2 t.readTs)) ||
-    s.committed.any (fun ct => !(c.skipOp.nat ct.1 t.readTs) && t.reads.any (fun r => ct.2.contains r))
+    (!c.intentFinal &&
+      s.committed.any (fun ct => !(c.skipOp.nat ct.1 t.readTs) && t.reads.any (fun r => ct.2.contains r)))
 
 /-- `oracle.cleanupCommittedTransactions` -/
 def cleanup (c : MvccCfg) (s : St) : St :=
@@ -255,7 +277,8 @@ def cleanup (c : MvccCfg) (s : St) : St :=
     { s with
       lastCleanup := maxReadTs
       committed := s.committed.filter (fun ct => !(c.pruneOp.nat ct.1 maxReadTs))
-      intent := s.intent.filter (fun p => !(gone.any (fun ct => ct.1 = p.2 && ct.2.contains p.1))) }
+      intent := s.intent.filter (fun p =>
+        !(gone.any (fun ct => (!c.intentDelGuard || ct.1 = p.2) && ct.2.contains p.1))) }
 
 def setIntent (it : List (Nat × Nat)) (ts : Nat) (keys : List Nat) : List (Nat × Nat) :=
   keys.map (fun k => (k, ts)) ++ it.filter (fun p => !(keys.contains p.1))
@@ -286,7 +309,7 @@ def applyCommit (s : St) (t : Txn) (ts : Nat) : St :=
            log := { ts := ts, readTs := t.readTs, writes := t.writes, rlog := t.rlog } :: s.log }
 
 /-- `Txn.Commit` / `Txn.CommitWith` (the callback awaited) -/
-def commitTxn (c : MvccCfg) (s : St) (id : Nat) (t : Txn) : St × Out :=
+def commitTxn (c : MvccCfg) (s : St) (id : Nat) (t : Txn) (io : Bool := false) : St × Out :=
   if t.discarded then (s, .discarded)
   else if t.writes = [] then (discardTxn c s id t, .ok)
   else if c.checksConflict && hasConflict c s t then (discardTxn c s id t, .conflict)
@@ -296,6 +319,7 @@ def commitTxn (c : MvccCfg) (s : St) (id : Nat) (t : Txn) : St × Out :=
     -- sendToWriteCh: size test first, then the closed queue
     if sendTooBig c s4 t.writes then (discardTxn c s4 id t1, .toobig)
     else if s4.closed then (discardTxn c s4 id t1, .blocked)
+    else if io then (discardTxn c s4 id t1, .iofail)     -- vlog.write / applyRequests error for the batch
     else (discardTxn c (applyCommit s4 t s.nextTs) id t1, .ok)
 
 /-- `Txn.Get` on a live transaction -/
@@ -342,6 +366,45 @@ def versionsOf (c : MvccCfg) (s : St) (k : Key) : St × Out :=
                           | none => none)
     ({ s with rm := rm1, nextTag := s.nextTag + 1 }, .vers vs)
 
+def insertKey (k : Key) : List Key → List Key
+  | [] => [k]
+  | x :: xs => if k = x then x :: xs else if Bytes.lt k x then k :: x :: xs else x :: insertKey k xs
+
+/-- what a forward scan returns for key `k`: the value and the version it is surfaced at
+(pending writes are surfaced at the read timestamp and win ties) -/
+def scanItem (s : St) (t : Txn) (k : Key) : Option (Key × Val × Nat) :=
+  match (if t.update then lookupW t.writes k else none) with
+  | some (some v) => some (k, v, t.readTs)
+  | some none => none
+  | none =>
+    match bestOf s.store k t.readTs with
+    | some e => match e.val with
+      | some v => some (k, v, e.ts)
+      | none => none
+    | none => none
+
+/-- `Txn.NewIterator(IteratorOptions{})`, `Rewind`, `Next` to the end, `Close` on a live transaction -/
+def scanTxn (c : MvccCfg) (fp : Key → Nat) (s : St) (id : Nat) (t : Txn) : St × Out :=
+  let keys := (t.writes.map (·.1) ++ s.store.map (·.key)).foldr insertKey []
+  let items := keys.filterMap (scanItem s t)
+  let tracked := if t.update then items.filter (fun it => c.scanTrackAll || decide (it.2.2 < t.readTs)) else []
+  let t' := { t with reads := t.reads ++ tracked.map (fun it => fp it.1),
+                     rkeys := tracked.map (fun it => it.1) ++ t.rkeys,
+                     rlog := tracked.map (fun it => (it.1, some it.2.1)) ++ t.rlog }
+  (putTxn s id t', .scanned (items.map (fun it => (it.1, it.2.1))))
+
+def maxTs (st : List Entry) : Nat := st.foldr (fun e m => max e.ts m) 0
+
+/-- `DB.Close` + `Open` on the same directory: a new oracle seeded by `initCommitState` with the
+largest version found in the store; every transaction handle of the old instance is gone -/
+def reopenDB (c : MvccCfg) (s : St) : St :=
+  let m := maxTs s.store
+  { s with closed := false,
+           nextTs := if m ≠ 0 ∧ c.seedOp.nat m 1 = true then m + 1 else 1,
+           committed := [], intent := [], lastCleanup := m,
+           rm := { doneUntil := m, lastIndex := 0, pending := [] },
+           txns := [] }
+
 def step (c : MvccCfg) (fp : Key → Nat) (s : St) (op : Op) : St × Out :=
   match op with
   | .begin id upd => beginTxn c s id upd
@@ -359,7 +422,19 @@ def step (c : MvccCfg) (fp : Key → Nat) (s : St) (op : Op) : St × Out :=
   | .commit id =>
     match getTxn s id with
     | none => (s, .notxn)
-    | some t => commitTxn c s id t
+    | some t => commitTxn c s id t false
+  | .commitIO id =>
+    match getTxn s id with
+    | none => (s, .notxn)
+    | some t => commitTxn c s id t true
+  | .scan id =>
+    match getTxn s id with
+    | none => (s, .notxn)
+    | some t =>
+      if t.discarded then (s, .discarded)
+      else if s.closed then (s, .closed)
+      else scanTxn c fp s id t
+  | .reopen => (reopenDB c s, .ok)
   | .discard id =>
     match getTxn s id with
     | none => (s, .notxn)
